@@ -627,6 +627,11 @@ func (e *engine) eval() error {
 		if !ok {
 			return fmt.Errorf("expected first premise of clause: %v to be an atom %v", clause, clause.Premises[0])
 		}
+		// Evaluate constructor expressions like [1, 2] that appear as arguments.
+		internalPremise, err := functional.EvalAtom(internalPremise, ast.ConstSubstList{})
+		if err != nil {
+			return err
+		}
 		var substs []ast.ConstSubstList
 		var inputFacts []ast.Atom
 		e.store.GetFacts(internalPremise, func(fact ast.Atom) error {
